@@ -7,7 +7,7 @@ from pydoctor import model
 
 DIMS = dict(
     xkind=["class", "func"],
-    dup=["none", "same", "other", "ifelse"],
+    dup=["none", "same", "other", "ifelse", "nested"],
     nested=[False, True],
     reexp=["none", "pkg_plain", "pkg_renamed", "pkg_star", "sib_plain", "pkg_twice", "pkg_plain_star"],
     origin_all=["absent", "without", "with"],
@@ -24,7 +24,7 @@ def valid(kw):
     return True
 
 
-def gen(xkind, dup, nested, reexp, origin_all, local_def, consumer, cycle, zope=False, fielddoc=False, shadow=False):
+def gen(xkind, dup, nested, reexp, origin_all, local_def, consumer, cycle, zope=False, fielddoc=False, shadow=False, samename=False):
     def defx(tag):
         if xkind == "class":
             doc = f"X {tag}" + ("\n\n    @ivar fld: documented only here\n    " if fielddoc else "")
@@ -62,6 +62,11 @@ def gen(xkind, dup, nested, reexp, origin_all, local_def, consumer, cycle, zope=
     else:
         impl += deco + defx(1)
         if dup == "same":
+            impl += deco + defx(2)
+        elif dup == "nested":
+            # a member defined twice inside a definition that is itself superseded later
+            if xkind == "class":
+                impl += "    def m1(self):\n        '''m again'''\n"
             impl += deco + defx(2)
         elif dup == "other":
             impl += defother(2)
@@ -111,6 +116,9 @@ def gen(xkind, dup, nested, reexp, origin_all, local_def, consumer, cycle, zope=
             user += f"from {exp} import {newname} as B\n"
         elif consumer == "both":
             user += f"from pkg._impl import X as B0\nfrom {exp} import {newname} as B\n"
+        elif consumer == "modalias_root":
+            # module alias plus a local name equal to the root package's name
+            user += "import pkg._impl as mm\npkg = 1\nB = mm.X\n"
         elif consumer == "modattr":
             user += "from pkg import _impl\nB = _impl.X\n"
         else:
@@ -120,6 +128,10 @@ def gen(xkind, dup, nested, reexp, origin_all, local_def, consumer, cycle, zope=
         else:
             user += "def u(a: B):\n    '''u, see L{B}'''\n"
     sources = {"pkg": (init, True), "pkg._impl": (impl, False)}
+    if samename:
+        # a sub-module named like the (single) root package, and a member of the root package itself
+        sources["pkg.pkg"] = ("def area():\n    '''area, see L{pkg.rootfn}'''\n", False)
+        sources["pkg"] = (sources["pkg"][0] + "def rootfn():\n    '''root function, see L{pkg.pkg.area}'''\n", True)
     if shadow:
         sources["pkg._base"] = ("class X:\n    '''base X'''\n    def bm(self): pass\n" if xkind == "class" else "def X():\n    '''base X'''\n", False)
     if sib is not None:
